@@ -189,6 +189,15 @@ theorem code_definition_returns_binding (rc : Oracle → State → Nat → Optio
     semCode rc ρ .definition s = { s with name := ns, code := v :: s.code } := by
   simp [semCode, hn, hb]
 
+/-- ... and is a pure read: the binding table is left exactly as it was, whatever the NAME stack holds
+(so every later encounter of the name still yields the value) -/
+theorem code_definition_keeps_bindings (rc : Oracle → State → Nat → Option (Item × Nat)) (s : State) :
+    (semCode rc ρ .definition s).bindings = s.bindings := by
+  simp only [semCode]
+  split
+  · rfl
+  · split <;> rfl
+
 /-! non-vacuity -/
 example : bindLookup "a" (bindInsert "a" (.lit (.int 2)) (bindInsert "a" (.lit (.int 1)) [])) = some (.lit (.int 2)) :=
   lookup_insert_self _ _ _
